@@ -537,6 +537,7 @@ Section new_top.
     - apply (extend_obs s s'); try assumption.
       + rewrite Hnext. unfold x. lia.
       + apply nt_dyn.
+      + intros m Hm. rewrite nt_nd_has by exact Hm. reflexivity.
       + intros m Hm. apply nt_scope.
       + unfold s'. apply obs_newNode.
     - apply (extend_quiet s s' nt_dyn); [| | | | | |exact Iquiet]; unfold s'.
@@ -548,3 +549,244 @@ Section new_top.
     - apply (extend_life s s' nt_dyn); [|exact Ilife]. unfold s'. apply log_newNode.
   Qed.
 End new_top.
+
+(** templates accepted by [op_ok] and [op_clean] are well-formed for a bind created now *)
+Lemma texp_ok_wf s : ids_ok s -> forall e root,
+  texp_ok s root e = true -> texp_top s e = true -> texp_wf s (next s) e.
+Proof.
+  intros Hids. fix IH 1. intros e root. destruct e as [k| |t|f e|f e1 e2|c e|cs e|]; simpl; try tauto.
+  - intros [Hh Hk]%isUserNode_true [_ Hs]%isTop_true. split; [exact Hh|]. split; [exact Hs|].
+    split; [apply (io_lt s Hids), Hh|exact Hk].
+  - apply IH.
+  - intros [H1 H2]%andb_true_iff [H3 H4]%andb_true_iff. split; eapply IH; eauto.
+  - apply IH.
+  - intros [[_ H1]%andb_true_iff H2]%andb_true_iff [H3 H4]%andb_true_iff.
+    split; [|eapply IH; eauto]. clear H2 H4.
+    induction cs as [|c cs IHcs]; [exact I|]. simpl in H1, H3.
+    apply andb_true_iff in H1 as [H1 H1']. apply andb_true_iff in H3 as [H3 H3'].
+    split; [eapply IH; eauto|apply IHcs; assumption].
+Qed.
+
+Section new_bind.
+  Context (s : state) (cases : list texp) (a : nid).
+  Hypothesis (HI : Inv s).
+  Hypothesis (Ha : has s a) (Has : scope (nd s a) = None).
+  Hypothesis (Hcases : Forall (texp_wf s (next s)) cases).
+  Let s' := (newBindWith false s cases a None).1.
+  Let x := next s.
+  Let rec := mkBind a x (S x) None [] cases 0%nat false [].
+
+  Local Lemma nb_x : ~ has s x.
+  Proof. intros H. apply (io_lt s (inv_ids s HI)) in H. unfold x in H. lia. Qed.
+  Local Lemma nb_Sx : ~ has s (S x).
+  Proof. intros H. apply (io_lt s (inv_ids s HI)) in H. unfold x in H. lia. Qed.
+
+  Local Lemma nb_nd m :
+    nd s' m = if decide (m = S x) then fresh_node (KBindMain x) [x] None 0
+              else if decide (m = x) then fresh_node (KBindLhs x) [a] None 0 else nd s m.
+  Proof.
+    unfold s'. rewrite newBindWith_eq. set (s1 := s <| binds := _ |>).
+    rewrite nd_newNode, next_newNode, nd_newNode.
+    change (next s1) with x. change (nd s1 m) with (nd s m). reflexivity.
+  Qed.
+
+  Local Lemma nb_nd_has m : has s m -> nd s' m = nd s m.
+  Proof.
+    intros H. rewrite nb_nd.
+    destruct (decide (m = S x)) as [->|]; [destruct (nb_Sx H)|].
+    destruct (decide (m = x)) as [->|]; [destruct (nb_x H)|reflexivity].
+  Qed.
+
+  Local Lemma nb_dyn m : dyn_eq (nd s' m) (nd s m).
+  Proof.
+    rewrite nb_nd. destruct (decide (m = S x)) as [->|].
+    - rewrite (not_has_nd s _ nb_Sx). apply dyn_eq_fresh.
+    - destruct (decide (m = x)) as [->|]; [|apply dyn_eq_refl].
+      rewrite (not_has_nd s _ nb_x). apply dyn_eq_fresh.
+  Qed.
+
+  Local Lemma nb_scope m : scope (nd s' m) = scope (nd s m).
+  Proof.
+    rewrite nb_nd. destruct (decide (m = S x)) as [->|].
+    - rewrite (not_has_nd s _ nb_Sx). reflexivity.
+    - destruct (decide (m = x)) as [->|]; [|reflexivity].
+      rewrite (not_has_nd s _ nb_x). reflexivity.
+  Qed.
+
+  Local Lemma nb_has m : has s' m <-> m = S x \/ m = x \/ has s m.
+  Proof.
+    unfold s'. rewrite newBindWith_eq. set (s1 := s <| binds := _ |>).
+    rewrite has_newNode, next_newNode, has_newNode.
+    change (next s1) with x. change (has s1 m) with (has s m). reflexivity.
+  Qed.
+
+  Local Lemma nb_binds : binds s' = <[x := rec]> (binds s).
+  Proof. reflexivity. Qed.
+
+  Local Lemma nb_binds_x : binds s !! x = None.
+  Proof.
+    destruct (binds s !! x) as [r|] eqn:E; [|reflexivity].
+    destruct (nb_x (bw_has_lhs s x r (inv_binds s HI x r E))).
+  Qed.
+
+  Local Lemma nb_bd b : b <> x -> bd s' b = bd s b.
+  Proof. intros H. unfold bd. rewrite nb_binds, lookup_insert_ne by congruence. reflexivity. Qed.
+
+  Local Lemma nb_bd_x : bd s' x = rec.
+  Proof. unfold bd. rewrite nb_binds, lookup_insert. reflexivity. Qed.
+
+  Local Lemma nb_bd_some b : is_Some (binds s !! b) -> bd s' b = bd s b.
+  Proof. intros H. apply nb_bd. intros ->. rewrite nb_binds_x in H. destruct H; discriminate. Qed.
+
+  Local Lemma nb_state : reg s' = reg s /\ obs s' = obs s /\ heap s' = heap s /\ adj s' = adj s /\
+    invq s' = invq s /\ stabNum s' = stabNum s /\ status s' = status s /\ numNodes s' = numNodes s /\
+    setDuring s' = setDuring s /\ setRemoved s' = setRemoved s /\ handlers s' = handlers s /\
+    maxHeight s' = maxHeight s /\ log s' = log s /\ next s' = S (S x).
+  Proof. repeat split. Qed.
+
+  Lemma Inv_newBind_top : Inv s'.
+  Proof.
+    destruct HI as [Iids Ibinds Ikinds Iscopes Iscoping Ivalid Iedges Izero Inec Ipar Iheight Iheap
+                    Icount Iobs Iquiet Ishape Istamps Ilife].
+    destruct nb_state as (Sreg & Sobs & Sheap & Sadj & Sinvq & Sstab & Sstatus & Snum & Ssd & Ssr & Sh & Smh & Slog & Snext).
+    assert (Hhas1 : forall m, has s m -> has s' m) by (intros m H; apply nb_has; auto).
+    assert (Hhas2 : forall m, has s' m -> has s m \/ (next s <= m)%nat).
+    { intros m [->|[->|H]]%nb_has; [right; unfold x; lia|right; unfold x; lia|auto]. }
+    assert (Hax : (a < x)%nat) by (apply (io_lt s Iids), Ha).
+    assert (Hkind : forall n, has s n -> nkind (nd s' n) = nkind (nd s n))
+      by (intros n Hn; rewrite nb_nd_has by exact Hn; reflexivity).
+    assert (Hdecl : forall n, has s n -> decl (nd s' n) = decl (nd s n))
+      by (intros n Hn; rewrite nb_nd_has by exact Hn; reflexivity).
+    assert (Hscope_some : forall n b, scope (nd s n) = Some b -> is_Some (binds s !! b))
+      by (intros n b E; apply (Iscopes n b E)).
+    constructor.
+    - (* ids *) split.
+      + intros n [->|[->|H]]%nb_has; rewrite Snext; [lia|lia|].
+        apply (io_lt s Iids) in H. unfold x. lia.
+      + intros n p. rewrite nb_nd. destruct (decide (n = S x)) as [->|].
+        { cbn. intros ->%elem_of_list_singleton. apply nb_has. auto. }
+        destruct (decide (n = x)) as [->|].
+        { cbn. intros ->%elem_of_list_singleton. apply Hhas1, Ha. }
+        intros Hp. eapply Hhas1, (io_decl s Iids), Hp.
+    - (* binds *) intros b r. rewrite nb_binds. destruct (decide (b = x)) as [->|Hne].
+      + rewrite lookup_insert. intros [= <-].
+        constructor; try reflexivity; try (rewrite nb_nd; repeat (destruct (decide _); try lia; try congruence); reflexivity).
+        * apply nb_has. auto.
+        * apply nb_has. auto.
+        * rewrite !nb_scope. rewrite (not_has_nd s _ nb_x), (not_has_nd s _ nb_Sx). reflexivity.
+        * cbn. intros n Hn. inversion Hn.
+        * cbn. constructor.
+        * intros t d Hc. apply chain_top_inv in Hc as [-> ->];
+            [|rewrite nb_scope, (not_has_nd s _ nb_x); reflexivity].
+          eapply List.Forall_impl; [|exact Hcases]. intros e.
+          apply texp_wf_ext; intros; [apply Hhas1; assumption|apply nb_scope|apply Hkind; assumption].
+      + rewrite lookup_insert_ne by congruence. intros Hr.
+        apply (bind_wf_mono s s'); auto using nb_scope.
+    - (* kinds *) intros n. rewrite nb_nd, nb_binds. destruct (decide (n = S x)) as [->|].
+      { intros _. cbn. rewrite lookup_insert. split; [reflexivity|eauto]. }
+      destruct (decide (n = x)) as [->|].
+      { intros _. cbn. rewrite lookup_insert. split; [reflexivity|eauto]. }
+      intros [?|[?|H]]%nb_has; [contradiction|contradiction|].
+      specialize (Ikinds n H). destruct (nkind (nd s n)) as [| | | | | | |b|b]; try exact I.
+      * destruct Ikinds as [-> Hb]. split; [reflexivity|].
+        rewrite lookup_insert_ne; [exact Hb|]. intros <-. rewrite nb_binds_x in Hb. destruct Hb; discriminate.
+      * destruct Ikinds as [-> Hb]. split; [reflexivity|].
+        rewrite lookup_insert_ne; [exact Hb|]. intros <-. rewrite nb_binds_x in Hb. destruct Hb; discriminate.
+    - (* scopes *) intros n b. rewrite nb_scope, nb_binds. intros E. destruct (Iscopes n b E) as [Hb Hlt].
+      split; [|exact Hlt]. rewrite lookup_insert_ne; [exact Hb|].
+      intros <-. rewrite nb_binds_x in Hb. destruct Hb; discriminate.
+    - (* scoping *) destruct Iscoping as [S1 S2 S3 S4]. split.
+      + intros n q. rewrite nb_nd. destruct (decide (n = S x)) as [->|].
+        { cbn. intros ->%elem_of_list_singleton. left. rewrite nb_scope, (not_has_nd s _ nb_x). reflexivity. }
+        destruct (decide (n = x)) as [->|].
+        { cbn. intros ->%elem_of_list_singleton. left. rewrite nb_scope. exact Has. }
+        rewrite !nb_scope. fold (nd s n). intros Hq.
+        destruct (S1 n q Hq) as [?|[?|(b & Hk1 & Hs1 & Hr1)]]; auto.
+        right; right. exists b. rewrite nb_bd_some; [auto|]. eapply Hscope_some, Hs1.
+      + intros n q b Hq Hn Hq'. rewrite nb_scope in Hn, Hq'. unfold inGen.
+        rewrite nb_bd_some by (eapply Hscope_some, Hn).
+        assert (Hn' : has s n).
+        { destruct (decide (has s n)) as [|Hno]; [assumption|]. rewrite (not_has_nd s n Hno) in Hn. discriminate. }
+        rewrite nb_nd_has in Hq by exact Hn'. apply S2; assumption.
+      + intros b q. destruct (decide (b = x)) as [->|Hne].
+        * rewrite nb_bd_x. cbn. discriminate.
+        * unfold inGen. rewrite nb_bd by exact Hne. rewrite nb_scope. apply S3.
+      + intros n q. rewrite nb_nd. destruct (decide (n = S x)) as [->|].
+        { cbn. intros ->%elem_of_list_singleton tq dq tn dn Cq Cn.
+          apply chain_top_inv in Cq as [-> ->]; [|rewrite nb_scope, (not_has_nd s _ nb_x); reflexivity].
+          apply chain_top_inv in Cn as [-> ->]; [|rewrite nb_scope, (not_has_nd s _ nb_Sx); reflexivity].
+          left. lia. }
+        destruct (decide (n = x)) as [->|].
+        { cbn. intros ->%elem_of_list_singleton tq dq tn dn Cq Cn.
+          apply chain_top_inv in Cq as [-> ->]; [|rewrite nb_scope; exact Has].
+          apply chain_top_inv in Cn as [-> ->]; [|rewrite nb_scope, (not_has_nd s _ nb_x); reflexivity].
+          left. exact Hax. }
+        intros Hq. apply (mu_lt_ext s s' nb_scope). apply S4, Hq.
+    - (* valid *) destruct Ivalid as [V1 V2 V3 V4]. split.
+      + intros n. rewrite nb_scope. destruct (nb_dyn n) as (_&_&_&_&_&_&_&_&->&_). apply V1.
+      + intros n b Hn. rewrite nb_scope. intros E. unfold inGen.
+        rewrite nb_bd_some by (eapply Hscope_some, E).
+        assert (Hn' : has s n).
+        { destruct (decide (has s n)) as [|Hno]; [assumption|]. rewrite (not_has_nd s n Hno) in E. discriminate. }
+        rewrite nb_nd_has by exact Hn'. apply V2; assumption.
+      + intros n b. unfold inGen. destruct (decide (b = x)) as [->|Hne].
+        * rewrite nb_bd_x. cbn. intros H; inversion H.
+        * rewrite nb_bd by exact Hne.
+          destruct (nb_dyn n) as (_&_&_&_&_&_&_&_&->&_).
+          destruct (nb_dyn b) as (_&_&_&_&_&_&_&_&->&_). apply V3.
+      + intros n. destruct (nb_dyn n) as (_&_&_&_&_&_&_&_&->&_&->). apply V4.
+    - apply (extend_edges s s' nb_dyn Iedges).
+    - apply (extend_zero s s' nb_dyn Izero).
+    - apply (extend_nec s s' nb_dyn Inec).
+    - apply (extend_par s s' nb_dyn Hdecl Ipar).
+    - apply (extend_height s s' nb_dyn); [|exact Smh|exact Iheight]. intros m _. apply nb_scope.
+    - apply (extend_heap s s' nb_dyn Sheap Iheap).
+    - apply (extend_count s s' nb_dyn Sreg Sobs Snum Icount).
+    - apply (extend_obs s s'); try assumption.
+      + rewrite Snext. unfold x. lia.
+      + apply nb_dyn.
+      + intros m _. apply nb_scope.
+    - apply (extend_quiet s s' nb_dyn Sadj Sinvq Sstatus Ssd Ssr Sh Iquiet).
+    - apply (extend_shape s s' Sadj Smh Ishape).
+    - apply (extend_stamps s s' nb_dyn Sstab Istamps).
+    - apply (extend_life s s' nb_dyn Slog Ilife).
+  Qed.
+End new_bind.
+
+(** * Operation groups *)
+Definition is_new (o : op) : bool :=
+  match o with
+  | NewVar _ _ | NewReturn _ | NewMap _ _ | NewMap2 _ _ _ | NewMapN _ _ | NewCutoff _ _
+  | NewAlways _ | NewBind _ _ => true
+  | _ => false
+  end.
+
+Lemma user_top s a : isUserNode s a = true -> isTop s a = true -> has s a /\ scope (nd s a) = None.
+Proof. intros _ H. apply isTop_true, H. Qed.
+
+Theorem Inv_step_new s o s' e :
+  Inv s -> op_ok s o = true -> op_clean s o = true -> is_new o = true ->
+  step s o = Ok (s', e) -> Inv s'.
+Proof.
+  intros HI Hok Hcl Hnew Hstep.
+  destruct o; try discriminate; simpl in Hok, Hcl, Hstep; apply ok_inv in Hstep as [-> _].
+  - apply Inv_newNode_top; [exact HI| |exact I]. intros p Hp; inversion Hp.
+  - apply Inv_newNode_top; [exact HI| |exact I]. intros p Hp; inversion Hp.
+  - apply Inv_newNode_top; [exact HI| |exact I].
+    intros p ->%elem_of_list_singleton. apply isTop_true, Hcl.
+  - apply andb_true_iff in Hcl as [H1 H2].
+    apply Inv_newNode_top; [exact HI| |exact I].
+    intros p Hp. apply elem_of_cons in Hp as [->|Hp]; [|apply elem_of_list_singleton in Hp as ->];
+      apply isTop_true; assumption.
+  - apply Inv_newNode_top; [exact HI| |exact I].
+    intros p Hp. apply isTop_true. rewrite forallb_forall in Hcl. apply Hcl. apply elem_of_list_In, Hp.
+  - apply Inv_newNode_top; [exact HI| |exact I].
+    intros p ->%elem_of_list_singleton. apply isTop_true, Hcl.
+  - apply Inv_newNode_top; [exact HI| |exact I].
+    intros p ->%elem_of_list_singleton. apply isTop_true, Hcl.
+  - apply andb_true_iff in Hcl as [H1 H2]. apply andb_true_iff in Hok as [[_ _]%andb_true_iff H3].
+    destruct (isTop_true _ _ H1) as [Ha Hs].
+    apply Inv_newBind_top; try assumption.
+    rewrite forallb_forall in H2, H3. apply Forall_forall. intros c Hc.
+    apply (texp_ok_wf s (inv_ids s HI) c true); [apply H3|apply H2]; exact Hc.
+Qed.
